@@ -69,6 +69,24 @@ fn codecs<B: Backend>() -> Vec<Codec> {
                                 return Some((d, format!("<serde path {name} gives {got:?}>")));
                             }
                         }
+                        // a format that is not human readable: still the one string, and nothing else is accepted
+                        match serde::Serialize::serialize(&x, NonHumanSer) {
+                            Ok(Rec::Str(w)) if w == d => {}
+                            Ok(Rec::Str(w)) => return Some((d, format!("<non-human-readable serialisation is the string {w:?}>"))),
+                            Ok(Rec::Other(k)) => return Some((d, format!("<non-human-readable serialisation is not a string but {k}>"))),
+                            Err(e) => return Some((d, format!("<non-human-readable serialisation is not a string: {e}>"))),
+                        }
+                        match <$ty as serde::Deserialize>::deserialize(NonHuman(StrDeserializer::<VErr>::new(d.as_str()))) {
+                            Ok(y) if y.to_string() == d => {}
+                            other => return Some((d, format!("<non-human-readable deserialisation of the string gives {:?}>", other.map(|y| y.to_string()).map_err(|e| e.to_string())))),
+                        }
+                        let raw: Vec<u8> = d.rsplit('.').next().and_then(crate::b64::decode).unwrap_or_default();
+                        if <$ty as serde::Deserialize>::deserialize(NonHuman(serde::de::value::BytesDeserializer::<VErr>::new(&raw))).is_ok() {
+                            return Some((d, "<a non-human-readable deserializer accepts raw bytes: a second wire form>".into()));
+                        }
+                        if <$ty as serde::Deserialize>::deserialize(NonHuman(serde::de::value::SeqDeserializer::<_, VErr>::new(raw.iter().copied()))).is_ok() {
+                            return Some((d, "<a non-human-readable deserializer accepts a sequence of bytes: a second wire form>".into()));
+                        }
                     }
                     Some((d, j))
                 }),
@@ -106,6 +124,85 @@ fn codecs<B: Backend>() -> Vec<Codec> {
         codec!("EncryptedToken<LossyFooter>", format!("v{v}.local."), EncryptedToken<B, Raw, crate::monitors::c02::LossyFooter>, true, any, None),
         codec!("SignedToken<LossyFooter>", format!("v{v}.public."), SignedToken<B, Raw, crate::monitors::c02::LossyFooter>, true, any, None),
     ]
+}
+
+// ---- a serde format that is *not* human readable: the text types have one wire form, their string ----
+pub enum Rec {
+    Str(String),
+    Other(&'static str),
+}
+pub struct NonHumanSer;
+type SErr = serde::de::value::Error;
+macro_rules! other {
+    ($($f:ident($t:ty)),*) => { $( fn $f(self, _: $t) -> Result<Rec, SErr> { Ok(Rec::Other(stringify!($f))) } )* };
+}
+impl serde::Serializer for NonHumanSer {
+    type Ok = Rec;
+    type Error = SErr;
+    type SerializeSeq = serde::ser::Impossible<Rec, SErr>;
+    type SerializeTuple = serde::ser::Impossible<Rec, SErr>;
+    type SerializeTupleStruct = serde::ser::Impossible<Rec, SErr>;
+    type SerializeTupleVariant = serde::ser::Impossible<Rec, SErr>;
+    type SerializeMap = serde::ser::Impossible<Rec, SErr>;
+    type SerializeStruct = serde::ser::Impossible<Rec, SErr>;
+    type SerializeStructVariant = serde::ser::Impossible<Rec, SErr>;
+    other!(serialize_bool(bool), serialize_i8(i8), serialize_i16(i16), serialize_i32(i32), serialize_i64(i64), serialize_u8(u8), serialize_u16(u16), serialize_u32(u32), serialize_u64(u64), serialize_f32(f32), serialize_f64(f64), serialize_char(char), serialize_bytes(&[u8]), serialize_unit_struct(&'static str));
+    fn serialize_str(self, v: &str) -> Result<Rec, SErr> {
+        Ok(Rec::Str(v.to_string()))
+    }
+    fn serialize_none(self) -> Result<Rec, SErr> {
+        Ok(Rec::Other("none"))
+    }
+    fn serialize_some<T: ?Sized + serde::Serialize>(self, v: &T) -> Result<Rec, SErr> {
+        v.serialize(self)
+    }
+    fn serialize_unit(self) -> Result<Rec, SErr> {
+        Ok(Rec::Other("unit"))
+    }
+    fn serialize_unit_variant(self, _: &'static str, _: u32, _: &'static str) -> Result<Rec, SErr> {
+        Ok(Rec::Other("unit_variant"))
+    }
+    fn serialize_newtype_struct<T: ?Sized + serde::Serialize>(self, _: &'static str, v: &T) -> Result<Rec, SErr> {
+        v.serialize(self)
+    }
+    fn serialize_newtype_variant<T: ?Sized + serde::Serialize>(self, _: &'static str, _: u32, _: &'static str, _: &T) -> Result<Rec, SErr> {
+        Ok(Rec::Other("newtype_variant"))
+    }
+    fn serialize_seq(self, _: Option<usize>) -> Result<Self::SerializeSeq, SErr> {
+        Err(serde::ser::Error::custom("seq: the text types serialise as one string"))
+    }
+    fn serialize_tuple(self, _: usize) -> Result<Self::SerializeTuple, SErr> {
+        Err(serde::ser::Error::custom("tuple: the text types serialise as one string"))
+    }
+    fn serialize_tuple_struct(self, _: &'static str, _: usize) -> Result<Self::SerializeTupleStruct, SErr> {
+        Err(serde::ser::Error::custom("tuple_struct"))
+    }
+    fn serialize_tuple_variant(self, _: &'static str, _: u32, _: &'static str, _: usize) -> Result<Self::SerializeTupleVariant, SErr> {
+        Err(serde::ser::Error::custom("tuple_variant"))
+    }
+    fn serialize_map(self, _: Option<usize>) -> Result<Self::SerializeMap, SErr> {
+        Err(serde::ser::Error::custom("map"))
+    }
+    fn serialize_struct(self, _: &'static str, _: usize) -> Result<Self::SerializeStruct, SErr> {
+        Err(serde::ser::Error::custom("struct"))
+    }
+    fn serialize_struct_variant(self, _: &'static str, _: u32, _: &'static str, _: usize) -> Result<Self::SerializeStructVariant, SErr> {
+        Err(serde::ser::Error::custom("struct_variant"))
+    }
+    fn is_human_readable(&self) -> bool {
+        false
+    }
+}
+pub struct NonHuman<D>(pub D);
+impl<'de, D: serde::Deserializer<'de>> serde::Deserializer<'de> for NonHuman<D> {
+    type Error = D::Error;
+    fn deserialize_any<V: serde::de::Visitor<'de>>(self, v: V) -> Result<V::Value, Self::Error> {
+        self.0.deserialize_any(v)
+    }
+    serde::forward_to_deserialize_any! { bool i8 i16 i32 i64 i128 u8 u16 u32 u64 u128 f32 f64 char str string bytes byte_buf option unit unit_struct newtype_struct seq tuple tuple_struct map struct enum identifier ignored_any }
+    fn is_human_readable(&self) -> bool {
+        false
+    }
 }
 
 /// what the specification of the text form says about `s` for codec `c`:
@@ -455,7 +552,7 @@ pub fn run(opts: &Opts) {
     for_backends!(opts, backend, opts, &mut rep);
     rep.set(
         "rule",
-        json!("per FromStr/Display pair (KeyText x5, KeyId x3, PieWrappedKey x2, PasswordWrappedKey x2, SealedKey, EncryptedToken, SignedToken) and backend: all 64^2 + 64^3 final blocks over the base64url alphabet (exhaustive on KeyText<Local>, KeyId<Local> and one token type in quick, on every type in thorough; sampled otherwise), all one-character tails, every position x every byte 0..0x7f and multibyte UTF-8, every prefix length of 8 blocks, padding / '+' '/' / whitespace / extra segments / header variants, tokens with 0..3 dots, tokens of typed footer types (Json<Value>, a lossy footer type) whose footer is spelled non-canonically, over-long strings whose tail repeats parts of the string itself, every byte string of length 0..300 through from_raw_bytes, random hostile strings; acceptance must equal the independent strict codec's verdict, accepted strings must re-serialise identically (tokens: modulo one trailing dot), FromStr and Deserialize must accept exactly the same strings; serde form must equal Display and deserialize back through six deserializer paths (from_str, from_value, from_reader, escaped JSON string, serde's String/Str/BorrowedStr value deserializers); distinct = distinct (type, string). Inputs are valid UTF-8 only (FromStr takes &str)"),
+        json!("per FromStr/Display pair (KeyText x5, KeyId x3, PieWrappedKey x2, PasswordWrappedKey x2, SealedKey, EncryptedToken, SignedToken) and backend: all 64^2 + 64^3 final blocks over the base64url alphabet (exhaustive on KeyText<Local>, KeyId<Local> and one token type in quick, on every type in thorough; sampled otherwise), all one-character tails, every position x every byte 0..0x7f and multibyte UTF-8, every prefix length of 8 blocks, padding / '+' '/' / whitespace / extra segments / header variants, tokens with 0..3 dots, tokens of typed footer types (Json<Value>, a lossy footer type) whose footer is spelled non-canonically, over-long strings whose tail repeats parts of the string itself, every byte string of length 0..300 through from_raw_bytes, random hostile strings; acceptance must equal the independent strict codec's verdict, accepted strings must re-serialise identically (tokens: modulo one trailing dot), FromStr and Deserialize must accept exactly the same strings; serde form must equal Display and deserialize back through six deserializer paths, plus a serde format that is not human readable (the serialisation must still be the one string; raw bytes / byte sequences must not deserialize) (from_str, from_value, from_reader, escaped JSON string, serde's String/Str/BorrowedStr value deserializers); distinct = distinct (type, string). Inputs are valid UTF-8 only (FromStr takes &str)"),
     );
     rep.finish(opts);
 }
